@@ -346,7 +346,7 @@ def main():
                 else:
                     notes.append("recorded finding %s no longer reproduces on this tree" % f["id"])
             if need_search and prop.get("search"):
-                r, w = run_replay(binp, ["search", prop["search"], tier, str(seed)], timeout=1800)
+                r, w = run_replay(binp, ["search", prop["search"], "thorough", str(seed)], timeout=1800)
                 r["wall_s"] = round(w, 2)
                 search_res = r
     elif wants_replay:
